@@ -11,6 +11,18 @@ import (
 // case "pairs":  pairs TAB <list of rule texts>          obs: n*n matrix of IsHigherPriority(a_i, a_j) [+ !flags]
 // case "select": select TAB <list of rule texts>         obs: winner of GetDNSBasicRule ; winner of NewMatchingResult(...).GetBasicResult
 func featureRule(g *Gen) string {
+	if g.Chance(1, 12) {
+		// a generic rule with many modifiers (up to 14) against rules that have little more than $domain: no number of
+		// modifiers makes up for the generic/specific rank
+		all := []string{"~script", "~image", "~stylesheet", "~object", "~font", "~media", "~subdocument", "~xmlhttprequest", "~websocket", "~ping", "~other", "third-party", "match-case", "dnstype=~A", "ctag=~device_pc", "client=~127.0.0.1"}
+		Shuffle(g, all)
+		k := 9 + g.Intn(6)
+		txt := Pick(g, []string{"", "@@"}) + "||example.org^$" + strings.Join(all[:k], ",")
+		if g.Chance(1, 3) {
+			txt += ",important"
+		}
+		return txt
+	}
 	var mods []string
 	if g.Chance(1, 3) {
 		mods = append(mods, "important")
